@@ -113,13 +113,13 @@ def tlc_run(module, cfg, wd, workers=None, env=None, jvm=None, tlc=None, timeout
     return r
 
 
-def tlc_mc(module, cfg, wd, workers=None, timeout=3600, tag="mc", coverage=False, tlc=None):
+def tlc_mc(module, cfg, wd, workers=None, timeout=3600, tag="mc", coverage=False, tlc=None, env=None):
     """exhaustive model checking; a violated invariant here is a defect of the SPECIFICATION
     (or a spec mutant being detected) -- the caller decides.  Tool crashes raise ToolTrouble."""
     extra = list(tlc or [])
     if coverage:
         extra += ["-coverage", "1"]
-    r = tlc_run(module, cfg, wd, workers=workers, timeout=timeout, tag=tag, tlc=extra)
+    r = tlc_run(module, cfg, wd, workers=workers, timeout=timeout, tag=tag, tlc=extra, env=env)
     if r["error"] is None and not r["ok"]:
         log(r["out"][-3000:])
         raise ToolTrouble("TLC did not complete on %s" % module)
